@@ -177,6 +177,48 @@ def run(payload):
                             fail("side_uses_the_array_linked_to_the_other_side", bc_kind=kind, route=route, upper=up, residual=float(np.max(np.abs(r))))
                 except Exception as e:
                     fail("error", bc_kind=kind, route=route, error=f"{type(e).__name__}: {e}", where="linked objects")
+    # ---- a one-sided condition overrides the condition given for the whole axis (documented precedence)
+    if sections is None or "precedence" in sections:
+        grid = UnitGrid([3, 4])
+        f = ScalarField(grid, rng.uniform(-1, 1, grid.shape))
+        for route in ("numpy", "numba"):
+            for ax_name, ax in (("x", 0), ("y", 1)):
+                for up in (False, True):
+                    side = ax_name + ("+" if up else "-")
+                    bc = {"*": {"derivative": 0}, ax_name: {"derivative": 0.5}, side: {"value": 2.0}}
+                    cases += 1
+                    try:
+                        full = apply(f, bc, route)
+                    except Exception as e:
+                        fail("error", bc=repr(bc), route=route, error=f"{type(e).__name__}: {e}", where="precedence")
+                        continue
+                    for up2 in (False, True):
+                        g, c1, c2, opp = ghost_and_cells(full, grid, ax, up2, None)
+                        kind2, par2 = ("value", {"value": 2.0}) if up2 == up else ("derivative", {"value": 0.5})
+                        if np.max(np.abs(check(kind2, g, c1, c2, opp, 1.0, par2))) > 1e-10:
+                            fail("one_sided_condition_does_not_override_the_axis_condition", bc=repr(bc), route=route, axis=ax, upper=up2)
+    # ---- conditions given as expressions of the coordinates, on every face of a 3-d grid
+    if sections is None or "coordinate_expressions" in sections:
+        grid = CartesianGrid([(0, 1), (0, 2), (0, 3)], [2, 3, 4])
+        f = ScalarField(grid, rng.uniform(-1, 1, grid.shape))
+        names = grid.axes
+        for route in ("numpy", "numba"):
+            for ax in range(3):
+                for up in (False, True):
+                    others = [a for a in range(3) if a != ax]
+                    expr = f"1 + {names[others[0]]} + 10 * {names[others[1]]}"
+                    bc = {"*": {"derivative": 0}, names[ax] + ("+" if up else "-"): {"value_expression": expr}}
+                    cases += 1
+                    try:
+                        full = apply(f, bc, route)
+                    except Exception as e:
+                        fail("error", bc=repr(bc), route=route, error=f"{type(e).__name__}: {e}", where="coordinate_expressions")
+                        continue
+                    g, c1, c2, opp = ghost_and_cells(full, grid, ax, up, None)
+                    c0, c1_ = np.meshgrid(grid.axes_coords[others[0]], grid.axes_coords[others[1]], indexing="ij")
+                    want = 1 + c0 + 10 * c1_
+                    if np.max(np.abs((g + c1) / 2 - want)) > 1e-10:
+                        fail("expression_condition_evaluated_at_the_wrong_boundary_points", bc=repr(bc), route=route, axis=ax, upper=up, residual=float(np.max(np.abs((g + c1) / 2 - want))))
     # ---- every way of writing a periodic / anti-periodic axis
     if sections is None or "periodic_specs" in sections:
         grid = UnitGrid([4, 3], periodic=[True, False])
